@@ -260,6 +260,7 @@ type c10Mode struct {
 	ImgRegex     bool // images entry name used as an unquoted regular expression
 	ImgTwice     bool // the entry is applied a second time to the images at the default field-spec paths
 	ListKeyRegex bool // [k=v] in a replacement TARGET path selects entries whose k contains a regexp match of v
+	SourceAlias  bool // the source value is read again before every write (live node, not a copy)
 }
 
 func (m c10Mode) class() string {
@@ -272,6 +273,9 @@ func (m c10Mode) class() string {
 	}
 	if m.ListKeyRegex {
 		parts = append(parts, "replacement-listkey-unanchored-regex")
+	}
+	if m.SourceAlias {
+		parts = append(parts, "replacement-source-aliased-by-target")
 	}
 	return "C10/" + strings.Join(parts, "+")
 }
@@ -632,6 +636,8 @@ func (t c10Tree) predictRepls(p *c10Pred, mode c10Mode) {
 			p.unknown = true
 			return
 		}
+		srcSlot := slots[0]
+		live := mode.SourceAlias && (rp.Source.Options == nil || rp.Source.Options.Delimiter == "")
 		if o := rp.Source.Options; o != nil && o.Delimiter != "" {
 			pieces := strings.Split(val, o.Delimiter)
 			if o.Index < 0 || o.Index >= len(pieces) {
@@ -705,6 +711,11 @@ func (t c10Tree) predictRepls(p *c10Pred, mode c10Mode) {
 						return
 					}
 					for _, s := range slots {
+						if live {
+							if v, ok := c10Text(srcSlot.get()); ok {
+								val = v
+							}
+						}
 						old := s.get()
 						if tg.Options != nil && tg.Options.Delimiter != "" {
 							ot, isScalar := c10Text(old)
@@ -891,12 +902,12 @@ func (t c10Tree) classify(cls string, out string) string {
 		}
 		return "C10/build-does-not-return"
 	}
-	modes := []c10Mode{{ImgRegex: true}, {ImgTwice: true}, {ImgRegex: true, ImgTwice: true}, {ListKeyRegex: true}}
+	modes := []c10Mode{{ImgRegex: true}, {ImgTwice: true}, {ImgRegex: true, ImgTwice: true}, {ListKeyRegex: true}, {SourceAlias: true}}
 	for _, m := range modes {
 		if (m.ImgRegex || m.ImgTwice) && len(t.Images) == 0 {
 			continue
 		}
-		if m.ListKeyRegex && len(t.Repls) == 0 {
+		if (m.ListKeyRegex || m.SourceAlias) && len(t.Repls) == 0 {
 			continue
 		}
 		p := t.predict(m)
@@ -1045,6 +1056,12 @@ func c10GenTree(r *Rng) c10Tree {
 		}
 		if tg.Options == nil && r.Chance(15) {
 			tg.Options = &c10Opts{Create: true}
+		}
+		if r.Chance(6) && rp.Source.Options == nil && rp.Source.FieldPath != "" && rp.Source.FieldPath != "metadata.name" {
+			// the target rewrites the source field itself (and one more field)
+			tg = c10Target{Select: &c10Sel{c10Id: c10Id{Kind: src.Kind, Name: src.Name}},
+				FieldPaths: []string{rp.Source.FieldPath, "metadata.labels.app"},
+				Options:    &c10Opts{Delimiter: "/", Index: 1 + r.Intn(2)}}
 		}
 		rp.Targets = []c10Target{tg}
 		t.Repls = []c10Repl{rp}
